@@ -430,4 +430,10 @@ theorem step_needMore_tail (d : Decoder) (c : Bool) (buf : Bytes) (d' : Decoder)
     (e : DErr) (h : step d c buf = .stop d' tl (.error e)) (hn : e.isNeedMore = true) : tl = buf :=
   (step_stop_props _ _ _ _ _ _ h).2.2 e rfl hn
 
+/-- after any `decode` the `continuing` mark is consumed: the next block starts fresh unless
+    `continue_block` is called again -/
+theorem decode_continuing_false (d : Decoder) (src : Bytes) : (d.decode src).dec.continuing = false := by
+  rw [decode_eq, (decodeLoop_sameCfg _ _ _ _ _).cont]
+  exact prep_continuing d
+
 end H2V.Lemmas.HpackDec
